@@ -251,6 +251,7 @@ WEAK int mode_sim(int, char **) { fprintf(stderr, "mode not built\n"); return 2;
 WEAK int mode_file(int, char **) { fprintf(stderr, "mode not built\n"); return 2; }
 WEAK int mode_util(int, char **) { fprintf(stderr, "mode not built\n"); return 2; }
 WEAK int mode_chars(int, char **) { fprintf(stderr, "mode not built\n"); return 2; }
+WEAK int mode_mem(int, char **) { fprintf(stderr, "mode not built\n"); return 2; }
 
 int main(int argc, char *argv[])
 {
@@ -268,6 +269,7 @@ int main(int argc, char *argv[])
   if (strcmp(argv[1], "file") == 0) { return mode_file(argc - 1, argv + 1); }
   if (strcmp(argv[1], "util") == 0) { return mode_util(argc - 1, argv + 1); }
   if (strcmp(argv[1], "chars") == 0) { return mode_chars(argc - 1, argv + 1); }
+  if (strcmp(argv[1], "mem") == 0) { return mode_mem(argc - 1, argv + 1); }
   fprintf(stderr, "unknown mode %s\n", argv[1]);
   return 2;
 }
